@@ -113,7 +113,7 @@ func solveOne(o *Obligation, cfg solveCfg) {
 		var total int64
 		hyps := append([]*Term(nil), o.Hyps...)
 		for i, g := range o.Goal.Args {
-			sub := &Obligation{Name: o.Name, Key: o.Key, Fn: o.Fn, Kind: o.Kind, Hyps: hyps, Goal: g, Pos: o.Pos, Clause: o.Clause, Descr: fmt.Sprintf("%s [conjunct %d/%d]", o.Descr, i+1, len(o.Goal.Args))}
+			sub := &Obligation{Name: o.Name, Key: o.Key, Fn: o.Fn, Kind: o.Kind, Hyps: hyps, Goal: g, Pos: o.Pos, Clause: o.Clause, Descr: fmt.Sprintf("%s [conjunct %d/%d]", o.Descr, i+1, len(o.Goal.Args)), Obs: o.Obs}
 			sub.SMT = strings.TrimSuffix(o.SMT, ".smt2") + fmt.Sprintf(".c%d.smt2", i+1)
 			if g.IsTrue() {
 				continue
@@ -121,6 +121,7 @@ func solveOne(o *Obligation, cfg solveCfg) {
 			solveOne(sub, cfg)
 			total += sub.Ms
 			if sub.Status != "proved" {
+				o.Vals = sub.Vals
 				o.Status, o.Solver, o.Model, o.Output, o.Ms = sub.Status, sub.Solver, sub.Model, fmt.Sprintf("conjunct %d/%d: %s\n%s", i+1, len(o.Goal.Args), g.String(), sub.Output), total
 				o.SMT = sub.SMT
 				return
@@ -198,6 +199,7 @@ func solveOne(o *Obligation, cfg solveCfg) {
 				o.Solver = r.sp.name
 				o.Ms = time.Since(t0).Milliseconds()
 				o.Output = r.out
+				o.Vals = modelValues(o, hyps)
 				return
 			default:
 				o.Output += fmt.Sprintf("[%s: %s] %s\n", r.sp.name, r.v, firstLines(r.out, 3))
